@@ -1,5 +1,5 @@
 import slayer
-from props.scommon import scen, preempt_scenario, pp_exact_fit_scenario, pp_cutoff_scenario, preempt_lockstep_scenario
+from props.scommon import scen, preempt_scenario, pp_exact_fit_scenario, pp_cutoff_scenario, preempt_lockstep_scenario, resume_elsewhere_scenario
 """C12 - priority: strict priority order, work conservation, query-only preemption"""
 
 
@@ -12,6 +12,8 @@ def scenarios(ctx, n):
         yield pp_cutoff_scenario(s + i)
     for i in range(max(8, n // 8)):
         yield preempt_lockstep_scenario(s + i)
+    for i in range(max(4, n // 16)):
+        yield resume_elsewhere_scenario(s + i)
 
 
 def run(ctx):
